@@ -1065,7 +1065,15 @@ class RulesMixin:
         for task, cls_ in cc.task_rely.items():
             if task != mine:
                 clauses.extend(cls_)
+        ufc = self.reg.fns.get(getattr(self, "unit_qual", ""))
+        ends = (ufc.model_opts.get("ends_sharing") or {}) if ufc is not None else {}
         for cl in clauses:
+            if cl.name in ends and why == "exit":
+                # the unit ends the period in which other tasks use the object (it has joined them):
+                # nobody is left to rely on this clause after its last segment -- an assumption,
+                # listed with its justification
+                self.ctx.assumptions_used.add(f"{unit}: the rely clause {cl.name} is not demanded of the unit's last segment: {ends[cl.name]}")
+                continue
             v = self.spec_eval_p(cl, {"self": us}, seg)
             self.ctx.prove(f"{unit}.guarantee.{cl.name}", self.as_z3_bool(v), cl.text, where, note=f"guarantee of the segment ending at ({why})", props=cl.props)
 
